@@ -92,7 +92,10 @@ type outcome struct {
 	nonEmpty bool
 	shortcut bool
 	stmts    int
+	sample   map[string]any // a written-out case for the evidence file (only while wantSample is set)
 }
+
+var wantSample bool
 
 func evaluate(spec caseSpec, verbose bool) (out outcome) {
 	d := dbIndex[spec.DB]
@@ -167,6 +170,18 @@ func evaluate(spec caseSpec, verbose bool) (out outcome) {
 	if kind == "" {
 		if out.nonEmpty {
 			out.outcome = "agree_nonempty"
+			if wantSample {
+				var ents, pts []string
+				for _, e := range d.Entries {
+					st := d.Streams[e.Stream]
+					ents = append(ents, fmt.Sprintf("%s type=%d ts=%s %s", canon(st.Labels), st.Type, tsText(e.TS), e.Line))
+				}
+				for _, p := range impl.points {
+					pts = append(pts, fmt.Sprintf("%s t=%s v=%g", p.Labels, tsText(p.T), p.V))
+				}
+				out.sample = map[string]any{"logql": spec.Text, "from_s": spec.Params.FromS, "to_s": spec.Params.ToS, "step_ms": spec.Params.StepMs,
+					"database": spec.DB, "entries": ents, "reference_buckets": ref.text(), "implementation_points": pts, "verdict": "agree"}
+			}
 		} else {
 			out.outcome = "agree_empty"
 		}
@@ -304,8 +319,8 @@ func (s *summary) record(c caseSpec, o *outcome) {
 	if o.nonEmpty {
 		s.NonEmpty++
 	}
-	if len(o.class) == 0 && o.nonEmpty && len(s.Samples) < 2 {
-		s.Samples = append(s.Samples, map[string]any{"logql": c.Text, "database": c.DB, "params": c.Params, "outcome": o.outcome})
+	if o.sample != nil && len(s.Samples) < 2 {
+		s.Samples = append(s.Samples, o.sample)
 	}
 	for _, cl := range o.class {
 		a := s.Classes[cl]
@@ -355,6 +370,8 @@ func workerMain(thorough bool, shard, of, from int, deadline int64, journal stri
 			jf.WriteAt(buf[:], 0)
 			prev = uint64(c.Idx) + 1
 		}
+		// samples for the evidence file: two agreeing non-trivial cases per worker, taken from the middle of the shard
+		wantSample = len(sum.Samples) < 2 && n >= len(g.cases)/2
 		o := evaluate(c, false)
 		sum.record(c, &o)
 	}
@@ -683,7 +700,7 @@ func main() {
 		r.Distinct(fmt.Sprintf("n%d", i))
 	}
 	for i, s := range all.Samples {
-		if i%2 == 0 {
+		if i%4 == 0 {
 			r.Sample(s)
 		}
 	}
